@@ -105,6 +105,9 @@ func menuSets() [][][]byte {
 func menuZSets() [][][]byte {
 	return [][][]byte{bs("ZADD", "z1", "1", "a"), bs("ZADD", "z1", "2", "b", "1", "c"), bs("ZADD", "z1", "2", "a"), bs("ZADD", "z1", "1", "b", "0.5", "d"), bs("ZADD", "z1", "-1", "e", "1.5", "a"),
 		bs("ZREM", "z1", "a"), bs("ZREM", "z1", "a", "b", "zz", "a"), bs("ZSCORE", "z1", "a"), bs("ZSCORE", "z1", "zz"), bs("ZSCORE", "z2", "a"), bs("ZINCRBY", "z1", "2", "a"), bs("ZINCRBY", "z1", "-0.5", "n"),
+		// scores that a single-precision float cannot hold (2^24+1, a half above 10^6, a sum beyond 2^24)
+		bs("ZADD", "z1", "16777217", "big", "1000000.5", "half", "-16777219", "neg"), bs("ZINCRBY", "z1", "16777216", "a"), bs("ZINCRBY", "z1", "1", "big"),
+		bs("ZSCORE", "z1", "big"), bs("ZSCORE", "z1", "half"), bs("ZRANGEBYSCORE", "z1", "1000000", "+inf", "WITHSCORES"), bs("ZRANGE", "z1", "-3", "-1", "WITHSCORES"),
 		bs("ZCARD", "z1"), bs("ZCARD", "z2"), bs("ZRANGE", "z1", "0", "-1"), bs("ZRANGE", "z1", "0", "-1", "WITHSCORES"), bs("ZRANGE", "z1", "1", "2"), bs("ZRANGE", "z1", "-2", "-1"), bs("ZRANGE", "z1", "2", "1"), bs("ZRANGE", "z1", "-9223372036854775808", "9223372036854775807"), bs("ZREVRANGE", "z1", "-9223372036854775808", "9223372036854775807", "WITHSCORES"), bs("ZRANGEBYSCORE", "z1", "-inf", "+inf", "LIMIT", "9223372036854775807", "1"), bs("ZRANGEBYSCORE", "z1", "-inf", "+inf", "LIMIT", "1", "9223372036854775807"), bs("ZREVRANGEBYSCORE", "z1", "+inf", "-inf", "LIMIT", "1", "9223372036854775807"),
 		bs("ZRANGE", "z1", "0", "-1", "REV"), bs("ZRANGE", "z1", "0", "0", "REV"), bs("ZRANGE", "z1", "1", "2", "rev", "WITHSCORES"), bs("ZRANGE", "z1", "-2", "-1", "REV"),
 		bs("ZREVRANGE", "z1", "0", "0"), bs("ZREVRANGE", "z1", "0", "-1", "WITHSCORES"), bs("ZREVRANGE", "z1", "1", "5"), bs("ZRANGEBYSCORE", "z1", "-inf", "+inf"), bs("ZRANGEBYSCORE", "z1", "1", "2"),
